@@ -124,7 +124,7 @@ def run(c, a):
             ann[d["n"]] = d
         except ValueError:
             pass
-    c.tlc("StreamObs", "StreamObsCases", "cases.cfg", workers=1, timeout=300, line_cb=on_line, name="cases",
+    c.tlc("StreamObs", "StreamObsCases", "cases.cfg", workers=1, timeout=900, line_cb=on_line, name="cases",
           files={"cases.ndjson": "".join(json.dumps(x) + "\n" for x in cands)})
     if len(ann) != len(cands):
         raise Broken("candidate annotation incomplete: %d of %d" % (len(ann), len(cands)))
